@@ -52,6 +52,9 @@ const (
 	// part of the bytes were accepted.
 	FaultTemporary      = "temporary"
 	FaultShortTemporary = "short-temporary"
+	// FaultFullErr: write side: every byte is accepted and an error is
+	// returned all the same (a buffering transport whose flush failed).
+	FaultFullErr = "full+error"
 )
 
 // ErrInjected is the arbitrary (non-EOF, non-timeout) injected error.
@@ -151,6 +154,14 @@ type ScriptConn struct {
 
 	Log    []Op
 	Closed int // number of Close calls
+	// HonourWriteDeadline makes Write fail with a timeout - as a fault that
+	// fires at that operation - when the write deadline armed last has passed
+	// (as a real connection does); FiredAtOp is the index of the write-side
+	// operation at which a fault fired (-1: none).
+	HonourWriteDeadline bool
+	FiredAtOp           int
+	curWDL              time.Time
+	inWrite             bool
 	// Starved counts the Reads issued when every scripted input byte had been
 	// delivered: on a live connection whose peer stays silent each of them
 	// would block.
@@ -161,7 +172,7 @@ type ScriptConn struct {
 // NewScriptConn returns a transport that will deliver input using the chunk
 // plan (nil = as asked).
 func NewScriptConn(input []byte, chunks []int) *ScriptConn {
-	return &ScriptConn{in: input, chunks: chunks}
+	return &ScriptConn{in: input, chunks: chunks, FiredAtOp: -1}
 }
 
 // SetInput replaces the remaining input.
@@ -345,8 +356,15 @@ func (c *ScriptConn) Read(p []byte) (int, error) {
 func (c *ScriptConn) writeSideFault() (string, bool) {
 	k := c.wops
 	c.wops++
+	if c.inWrite && c.HonourWriteDeadline && !c.wfired && !c.curWDL.IsZero() && !time.Now().Before(c.curWDL) {
+		c.wfired = true
+		c.FiredAtOp = k
+		c.wferr = ErrTimeout
+		return FaultTimeout, true
+	}
 	if c.wfault != nil && !c.wfired && k == c.wfault.K {
 		c.wfired = true
+		c.FiredAtOp = k
 		c.wferr = FaultErr(c.wfault.Kind)
 		if c.wfault.Kind == FaultShort {
 			c.wferr = ErrInjected
@@ -367,12 +385,18 @@ func (c *ScriptConn) Write(p []byte) (int, error) {
 		c.log(Op{Kind: OpWrite, Asked: len(p), Err: c.wferr})
 		return 0, c.wferr
 	}
+	c.inWrite = true
 	kind, hit := c.writeSideFault()
+	c.inWrite = false
 	if hit {
 		n := 0
 		if kind == FaultShort || kind == FaultShortTemporary {
 			n = len(p) / 2
 			c.Wrote = append(c.Wrote, p[:n]...)
+		}
+		if kind == FaultFullErr {
+			n = len(p)
+			c.Wrote = append(c.Wrote, p...)
 		}
 		c.log(Op{Kind: OpWrite, Asked: len(p), Data: append([]byte(nil), p[:n]...), Err: c.wferr})
 		return n, c.wferr
@@ -396,6 +420,9 @@ func (c *ScriptConn) deadlineOp(kind OpKind, t time.Time, writeSide bool) error 
 		} else if _, hit := c.writeSideFault(); hit {
 			err = c.wferr
 		}
+	}
+	if writeSide && err == nil {
+		c.curWDL = t
 	}
 	c.log(Op{Kind: kind, Deadline: t, Err: err})
 	return err
